@@ -17,7 +17,7 @@ RULE = ("Every chain m0 -> m1 -> ... of length 0..L whose elements are synthetic
         "(elab(m0), unwrap(m0), elab(m1), ...), final obj / hide / description / children / inner_stack, and error iff > 100 "
         "steps. state = (position in chain, context fields); transition = one hook call; every trace is replayed on the "
         "implementation.")
-ASSUMPTIONS = ["exactly 100 unwrap steps is left unconstrained (the property says 'more than 100')"]
+ASSUMPTIONS = ["at exactly 100 successful unwrap steps either outcome is accepted: an error, or a complete steady state (the property says 'more than 100')"]
 
 
 def legs(tier):
@@ -176,7 +176,7 @@ def teardown():
                 pass
 
 
-def reference(case, exiting):
+def reference(case, exiting, limit=100):
     """Returns dict(log, obj(name), hide, desc, has_children, has_inner, error)"""
     names = case["names"]
     table = {}
@@ -195,7 +195,7 @@ def reference(case, exiting):
     f = {"hide": False, "desc": None, "children": None, "inner": None}
     states = set()
     ntrans = 0
-    for step in range(100):
+    for step in range(limit):
         # elaborate
         if cur == "PLAIN":
             pass
@@ -423,8 +423,8 @@ def gen_cases(maxlen):
                     continue
                 for last in LASTS:
                     yield {"names": names, "elabs": list(elabs), "last": last}
-    for n in (99, 101):
-        yield {"names": ["w%d" % i for i in range(n + 1)], "elabs": ["none"] * (n + 1), "last": None, "long": n}
+    for n in (99, 100, 101):
+        yield {"names": ["w%d" % i for i in range(n + 1)], "elabs": ["desc"] * (n + 1), "last": None, "long": n}
 
 
 def check_case(case):
@@ -435,6 +435,12 @@ def check_case(case):
         stats[0] += ref["ntrans"]
         stats[1] |= ref["states"]
         got, log = run_bare(case, exiting)
+        if case.get("long") == 100:
+            # exactly 100 successful unwrap steps: the statement only says that MORE than 100 is an error. Either an
+            # error is reported, or the context must be complete (the 101st manager installed AND elaborated).
+            if not got["error"]:
+                problems += compare(reference(case, exiting, limit=1000), got, log, "bare/exactly-100-steps/exiting=%r" % exiting)
+            continue
         problems += compare(ref, got, log, "bare/exiting=%r" % exiting)
         if case["names"][0][0] in "wf" and not case.get("long"):
             got2, log2 = run_in_extract(case, exiting)
@@ -478,6 +484,6 @@ def run(ctx):
 def replay(case):
     if "long" in case and "names" not in case:
         n = case["long"]
-        case = {"names": ["w%d" % i for i in range(n + 1)], "elabs": ["none"] * (n + 1), "last": None, "long": n}
+        case = {"names": ["w%d" % i for i in range(n + 1)], "elabs": ["desc"] * (n + 1), "last": None, "long": n}
     problems, _ = check_case(case)
     return [{"detail": p} for p in problems]
